@@ -68,8 +68,11 @@ impl<'a> Run<'a> {
         if ev.meter.max_region_depth >= 2 {
             self.stats.count("probe.nested_region_depth_ge_2");
         }
+        let ch = case_hash(&case, ev.outcome);
+        self.stats.note(ch);
+        self.stats.note(ev.meter.ticks);
         if nontrivial {
-            self.stats.distinct.insert(case_hash(&case, ev.outcome));
+            self.stats.distinct.insert(ch);
         }
         self.stats
             .tuples
